@@ -56,3 +56,15 @@ Fixpoint has_data (e : cexpr) : bool :=
   | CGlobal _ _ b => has_data b
   | _ => false
   end.
+
+(* ---- multi-file worlds: the integer an expression of file [cur] denotes.  A plain global name
+   is looked up in the file the expression lives in; `file.name` in that file. *)
+Inductive denotes_w (w : world) : N -> wexpr -> N -> Prop :=
+| DW_int cur n : denotes_w w cur (WInt n) n
+| DW_comptime cur safe n : denotes_w w cur (WComptime safe (DInt n)) n
+| DW_param cur n : denotes_w w cur (WParam (DInt n)) n
+| DW_local cur mu v n : denotes_w w cur v n -> denotes_w w cur (WLocal mu (Some v)) n
+| DW_global cur g gd n :
+    w cur g = Some gd -> denotes_w w cur (wg_body gd) n -> denotes_w w cur (WGlobal g) n
+| DW_member cur f g gd n :
+    w f g = Some gd -> denotes_w w f (wg_body gd) n -> denotes_w w cur (WMember f g) n.
